@@ -77,6 +77,8 @@ class Disp:
         if self.exit_.endswith("fail"):
             raise DispError(("exit", self.i))
         self.log.append(("exited", self.i))
+        if self.exit_ == "swallow":             # a resource that reports "handled" (returns True from __aexit__)
+            return True
         return None
 
 
@@ -133,6 +135,10 @@ def run_scenario(disps, body, spawned, cancel_at, outer_state=True):
                         elif body_exc is not None:
                             await asyncio.sleep(0.5)
                             raise body_exc
+                        elif body == "cancel-last":
+                            await asyncio.sleep(0.5)
+                            obs["self_cancelled"] = loop.time()
+                            ctx.cancel()                       # the request is delivered at the exit's first suspension point
                         else:
                             await asyncio.sleep(0.5)
                     except BaseException as e:  # noqa
@@ -194,7 +200,7 @@ def scenarios(level=1):
         [[("state", "ok"), ("fail", "ok")], [("slow-state", "ok"), ("fail", "ok")], [("state", "fail"), ("none", "fail")],
          [("state", "slow-ok"), ("none", "fail")], [("states", "ok"), ("state", "ok")], [("state", "ok"), ("slow-fail", "ok")],
          [("none", "fail"), ("state", "slow-fail")], [("none", "slow-fail"), ("none", "fail"), ("none", "slow-ok")],
-         [("leaky", "ok")], [("leaky", "ok"), ("state", "ok")], [("spawner", "ok"), ("slow-state", "ok")], [("spawner", "ok"), ("slow-fail", "ok")], [("spawner", "ok"), ("fail", "ok")]]
+         [("state", "swallow")], [("none", "ok"), ("none", "swallow")], [("leaky", "ok")], [("leaky", "ok"), ("state", "ok")], [("spawner", "ok"), ("slow-state", "ok")], [("spawner", "ok"), ("slow-fail", "ok")], [("spawner", "ok"), ("fail", "ok")]]
     cancels = (None, 0.5, 1.2, 1.7, 2.6, 5.5)
     spawn_sets = [[], ["done"], ["block"], ["fail", "block"], ["respawn"], ["fail", "respawn"]]
     if level >= 3:
@@ -208,7 +214,7 @@ def scenarios(level=1):
         cancels = (None, 0.0, 0.25, 0.5, 0.75, 1.0, 1.2, 1.5, 1.7, 2.0, 2.25, 2.6, 3.0, 3.5, 5.5)
         spawn_sets = spawn_sets + [["done", "done", "block"], ["fail", "done", "block", "block"], ["block", "respawn", "fail"]]
     for ds in dsets:
-        for body in ("return", "raise", "base", "sleep"):
+        for body in ("return", "raise", "base", "sleep", "cancel-last"):
             for spawned in (spawn_sets +
                             ([["failcancel"]] if os.environ.get("C07_CHECK_FAILING_MEMBER") == "1" else [])):
                 for cancel_at in cancels:
